@@ -25,7 +25,7 @@ RECURSIVE MayFix(_, _)
 MayFix(pr, P) == IF StepMay(pr, P) = P THEN P ELSE MayFix(pr, StepMay(pr, P))
 Base(fs) == {<<f, fs[f]>> : f \in {g \in Fields : fs[g] # "abs"}}
 May(pr, fs) == MayFix(pr, Base(fs))
-Definite(pr) == \A r \in RulesOf(pr) : r.body.k \in {"one", "and"}
+Definite(pr) == \A r \in RulesOf(pr) : r.body.k \in {"one", "and"} /\ ~r.bad
 Consistent(pr, fs) == \A f \in Fields :
     Cardinality(({fs[f]} \ {"abs"}) \cup {r.hv : r \in {x \in RulesOf(pr) : x.hf = f}}) <= 1
 RECURSIVE Within(_, _, _)
